@@ -177,7 +177,7 @@ def rule_phases(ctx: Ctx) -> None:
     if tr:
         t = tr[0]
         gathers = [c for s in t.body for c in A.calls(s) if (A.call_name(c) or "").endswith("gather")]
-        cancels = [c for s in t.finalbody for c in A.calls(s) if (A.call_name(c) or "").endswith("_cancel")]
+        cancels = [c for s in t.finalbody for c in A.calls(s, shallow=False) if (A.call_name(c) or "").endswith("_cancel") or (A.call_name(c) or "").endswith(".cancel")]
         awaits_pending = [c for s in t.finalbody for c in A.calls(s) if (A.call_name(c) or "").endswith("gather")
                           and any(k.arg == "return_exceptions" and A.const_value(k.value) is True for k in c.keywords)]
         okx = bool(gathers) and bool(cancels) and bool(awaits_pending)
